@@ -459,6 +459,9 @@ class Reconcile:
                 try:
                     copy = nodef.verify(reparse=False).copy(trivia=self.trivia_fst_get)
 
+                    if not copy.verify(raise_=False):  # the AST under this node was changed after it was parsed (values, operators, child nodes), its source does not say what the AST says
+                        raise ValueError('modified')
+
                 except Exception:  # verification failed, fall through to pure AST
                     pass
 
